@@ -17,6 +17,15 @@ import numpy as np
 from harness import common as C
 from harness import pcovr_common as P
 
+MAX_REPORTS = 25          # replay files written per run (a broken tree fails hundreds of cases)
+
+
+def report(ctx, *a, **kw):
+    if len(ctx.violations) < MAX_REPORTS:
+        C.report_violation(ctx, *a, **kw)
+    else:
+        ctx.suppressed = getattr(ctx, "suppressed", 0) + 1
+
 FAMS = ["tall", "wide", "square", "rankdef"]
 # outputs compared when the fit ran in the other space than the model case (training data only)
 TRAIN_ONLY = [3, 4, 5, 6, 7, 8, 9, 10]
@@ -195,14 +204,14 @@ def run(ctx):
         stats["spaces"][base["space"]] = stats["spaces"].get(base["space"], 0) + 1
         stats["k_hist"][base["k"]] = stats["k_hist"].get(base["k"], 0) + 1
         if msg:
-            C.report_violation(ctx, "C04 fails on the implementation: " + msg,
+            report(ctx, "C04 fails on the implementation: " + msg,
                                dict(case=case_replay(ds, base, dict(kind="grid", grid=grid))), found_input=True)
             continue
         msg, done = limits_oracle(ds, base, pts)
         stats["pca_limit_checked"] += done["pca"]
         stats["regression_limit_checked"] += done["regression"]
         if msg:
-            C.report_violation(ctx, "C04 fails on the implementation: " + msg,
+            report(ctx, "C04 fails on the implementation: " + msg,
                                dict(case=case_replay(ds, base, dict(kind="grid", grid=grid))), found_input=True)
             continue
         # optimality at three grid points (both ends of the open interval and one inside)
@@ -224,7 +233,7 @@ def run(ctx):
                 stats["competitor_kinds"][nm.split()[0]] = stats["competitor_kinds"].get(nm.split()[0], 0) + 1
                 stats["competitors"] += 1
                 if L_impl > lq + 1e-9 * scale:
-                    C.report_violation(
+                    report(
                         ctx, "C04 fails on the implementation: the %s subspace has mixed loss %.12g < PCovR's %.12g at mixing %g"
                         % (nm, lq, L_impl, a),
                         dict(case=case_replay(ds, cfg, dict(kind="competitor", Q=Q, name=nm))), found_input=True)
@@ -278,10 +287,10 @@ def run(ctx):
         viol_opt = [b for b in bad if b.startswith("own <=")]
         if viol_opt:
             # the float model itself says a competitor beats the oracle subspace: re-check on the impl
-            C.report_violation(ctx, "C04: model loss of a competitor below PCovR's own (%s)" % viol_opt,
+            report(ctx, "C04: model loss of a competitor below PCovR's own (%s)" % viol_opt,
                                dict(case=case_replay(ds, cfg, dict(kind="model", values=vals))), found_input=False)
         else:
-            C.report_violation(ctx, "correspondence PCovR loss model vs implementation broken: %s %s" % (bad, bad_pc),
+            report(ctx, "correspondence PCovR loss model vs implementation broken: %s %s" % (bad, bad_pc),
                                dict(case=case_replay(ds, cfg, dict(kind="model", values=vals)),
                                     correspondence="c04_report / pc_report (Model/PCovR.v)"), found_input=False)
     for c, (ds, cfg) in route_cases.items():
@@ -293,13 +302,13 @@ def run(ctx):
         else:
             bad_o = [P.OUTPUT_NAMES[i] for i, b in enumerate(r["ok_out"]) if not b]
             bad_h = [P.RESIDUAL_NAMES[i] for i, b in enumerate(r["ok_hyp"]) if not b]
-            C.report_violation(ctx, "correspondence PCovR model vs implementation broken (feature space): outputs %s, oracle hypotheses %s" % (bad_o, bad_h),
+            report(ctx, "correspondence PCovR model vs implementation broken (feature space): outputs %s, oracle hypotheses %s" % (bad_o, bad_h),
                                dict(case=case_replay(ds, cfg, dict(kind="model")), correspondence="pc_report (Model/PCovR.v)"),
                                found_input=False)
     for txt in broken:
-        C.report_violation(ctx, "correspondence shard did not evaluate", dict(coq_output=txt), found_input=False)
+        report(ctx, "correspondence shard did not evaluate", dict(coq_output=txt), found_input=False)
     if not po["ok"]:
-        C.report_violation(ctx, "proof obligations of Properties/C04.v not discharged",
+        report(ctx, "proof obligations of Properties/C04.v not discharged",
                            dict(theorem_file="coq/Properties/C04.v", log=po["log"][-2000:], scan=po["scan"],
                                 disallowed_axioms=po.get("disallowed_axioms")), found_input=False)
     nontrivial = 0
@@ -311,7 +320,7 @@ def run(ctx):
             seen.add(h)
     _, changed = C.drift_report(ctx.prop, P.ANCHORS)
     stats["oracle_hypothesis_residual_max"] = dict(zip(P.RESIDUAL_NAMES, res_max))
-    sample_ids = sorted(reports)[:2]
+    sample_ids = [i for i in sorted(reports) if i in cases][:2]
     cov = dict(obligations=po["obligations"], discharged=po["discharged"], checker_cmd=po["checker_cmd"],
                theorems=po["theorems"], axioms=po["axioms"],
                trusted_base=C.TRUSTED_BASE_COMMON + [
